@@ -28,10 +28,12 @@ ASSUMPTIONS = [
 ]
 REQUIRED = {"verdict.matches_model": {"quick": 1500, "thorough": 100000}, "verdict.structural": {"quick": 1000, "thorough": 80000},
             "fault.hook_makes_run_fail": {"quick": 300, "thorough": 20000}, "fault.cleanup_makes_run_fail": {"quick": 100, "thorough": 5000},
-            "exit_code.matches_model": {"quick": 12, "thorough": 300}}
+            "exit_code.matches_model": {"quick": 12, "thorough": 300},
+            "verdict.failing_sub_step_of_execute_steps_makes_run_fail": {"quick": 200, "thorough": 10000}}
 REQUIRED_SEEN = {"only_cause": ["failed_scenario", "aborted", "aborted_without_failed_scenario", "hook_failure", "cleanup_failure",
                                 "undefined_dry_run"],
-                 "verdict": ["failed", "success"], "file_filter": ["include+exclude:file_matching_both"]}
+                 "verdict": ["failed", "success"], "file_filter": ["include+exclude:file_matching_both"],
+                 "nested_sub_step_outcome": ["fail", "error", "pending", "undefined", "pass"], "tag_name_class": ["contains_operator_word"]}
 NSHARDS = {"quick": 16, "thorough": 16}
 NONTRIVIAL = "see RULE"
 
@@ -67,6 +69,44 @@ def autoretry_verdict(lab, mon, case):
         return
     mon.check("verdict.same_with_autoretry_recipe", bool(obs.verdict) in pred.verdict,
               lambda: RB.witness(case, recipe="scenario_autoretry on feature.scenarios", got=bool(obs.verdict), want=sorted(pred.verdict)))
+
+
+def nested_verdict(lab, mon, rng):
+    """A passing step that runs further steps with context.execute_steps(): when such a sub-step fails an assertion, raises, is
+    pending (outside @wip) or is undefined, a selected scenario ran into it -- the run must be red; with passing sub-steps the
+    verdict is the one of the plain program."""
+    case = RB.gen_case(rng, gen={"p_nonpass": 0.0, "p_wip": 0.0}, p_dry=0.0, p_stop=0.2)
+    cands = [t for t, oc in case["program"]["outcomes"].items() if oc == "pass" and t[0] == "k"]
+    if not cands:
+        return
+    outer = rng.choice(cands)
+    sub_outcome = rng.choice(["fail", "error", "pending", "undefined", "pass", "error", "pending"])
+    sub = ("u9%d sub step" if sub_outcome == "undefined" else "k9%d sub step") % rng.randrange(1000, 9999)
+    if sub_outcome != "undefined":
+        case["program"]["outcomes"][sub] = sub_outcome
+    nest = {"busy": False}
+
+    def plugin(state, context, text):
+        if text == outer and not nest["busy"]:
+            nest["busy"] = True
+            try:
+                context.execute_steps(u"Given %s\n" % sub)
+            finally:
+                nest["busy"] = False
+    obs = lab.run(case["program"], args=case["args"], step_plugins=[plugin])
+    c2 = dict(case, nested={"outer_step": outer, "sub_step": sub, "sub_step_outcome": sub_outcome})
+    mon.case(("nested", RB.strip_case(case), outer, sub_outcome), True)
+    if obs.escaped is not None:
+        mon.check("verdict.no_exception_escapes", False, lambda: RB.witness(c2, escaped=repr(obs.escaped)))
+        return
+    reached = any(t == outer for _n, t in obs.calls)
+    if not reached:
+        mon.count("nested.outer_step_not_selected")
+        return
+    want = sub_outcome != "pass"
+    mon.check("verdict.failing_sub_step_of_execute_steps_makes_run_fail", bool(obs.verdict) == want,
+              lambda: RB.witness(c2, got=bool(obs.verdict), want=want, statuses=obs.elem_status))
+    mon.seen("nested_sub_step_outcome", sub_outcome)
 
 
 def run_fault_free(lab, mon, case, sample=False):
@@ -227,7 +267,18 @@ def run(spec, mon):
     n_random = 120 if tier == "quick" else 6000
     for i in range(n_random):
         gen = {"outcomes": OUTCOMES + ["abort"], "weights": {"abort": 0.4}} if i % 4 == 0 else {}
+        if i % 9 == 5:
+            # tag names that CONTAIN the operator words of the new dialect (android, order, notify, sandbox), old- and new-style syntax
+            alt = ["android", "order", "notify", "sandbox", "b"]
+            gen = dict(gen, tags=alt)
         case = RB.gen_case(rng, gen=gen, p_user_skip=0.15)
+        if i % 9 == 5:
+            ast, args = RB.random_expr(rng, tags=alt)
+            case["cfg"]["tags"] = ast
+            case["args"] = args + [a for a in case["args"] if not a.startswith("--tags")]
+            mon.seen("tag_name_class", "contains_operator_word")
+        if i % 3 == 1:
+            nested_verdict(lab, mon, rng)
         if case["program"].get("user_skip"):
             mon.seen("environment_skips_container", "yes")
         obs, pred = run_fault_free(lab, mon, case, sample=(i == 0 and shard < 3))
